@@ -9,7 +9,10 @@ R-C18-2: every non-default constructor validates (checkParameters) after the las
 R-C18-3: chooseNumberOfLevels, interpreted from source over a range of (nr, ntheta, maxLevels): the reported level
          count implies coarseningGrid's precondition for every coarsening setup() performs, every smoothing level has
          ntheta % 4 == 0 and nr >= 5, and fewer than two levels is rejected by an exception.
-R-C18-4: the last radius / angle of every generator is assigned from the endpoint itself, not accumulated.
+R-C18-4: end-point provenance: in every interpreted generator instance the first and the last radius ARE the caller's R0 and
+         Rmax (the value node that was passed in, copied through vectors, sets and refinement), not an expression that equals them
+         in exact arithmetic only (R0 + n*h), which rounding may move off the boundary. (Angles: ntheta is a power of two, for
+         which n * (2 pi / n) is exact in binary floating point, so pinning the last angle changes no value.)
 R-C18-5: the uniform generator interpreted in exact arithmetic with symbolic R0 < Rmax: radii run from exactly R0 to exactly Rmax,
          increase strictly, every fine radius is the midpoint of its coarse neighbours, divideBy2=k contains divideBy2=k-1 as its
          every-second-node subgrid, angles are j/ntheta of the literal 2*pi with antipodal partners, nr is odd. (The anisotropic
@@ -74,8 +77,15 @@ def algebraic_grid(ck, prog, tier):
         probs = []
         if oob:
             probs.append("out-of-range access %s[%s] (length %s) at %s" % oob[0])
-        if rad[0] is not R0 or rad[-1] is not R:
-            probs.append("end points are %s and %s, not exactly R0 and Rmax" % (dag.show(rad[0], 40), dag.show(rad[-1], 40)))
+        ck.instance("R-C18-4", "uniform " + key, nontrivial=True)
+        if rad[0] is R0 and rad[-1] is R:
+            ck.ok("R-C18-4", "uniform " + key, sample={"parameters": key, "first radius": dag.show(rad[0], 20), "last radius": dag.show(rad[-1], 20)})
+        elif dag.equal(rad[0], R0) and dag.equal(rad[-1], R):
+            which = 0 if rad[0] is not R0 else -1
+            ck.violation("R-C18-4", "uniform:accumulated-endpoint", site, "%s: the %s radius equals %s only in exact arithmetic: it is computed as %s instead of being assigned from the end point (after rounding the grid need not end on the boundary)" % (
+                key, "first" if which == 0 else "last", "R0" if which == 0 else "Rmax", dag.show(rad[which], 80)))
+        else:
+            probs.append("end points are %s and %s, not R0 and Rmax" % (dag.show(rad[0], 40), dag.show(rad[-1], 40)))
         if nr % 2 != 1:
             probs.append("nr = %d is even: the grid cannot be coarsened" % nr)
         for i in range(nr - 1):
@@ -166,6 +176,14 @@ def anisotropic_grid(ck, prog, tier):
                     probs.append("the first radius is R0 + %s*(Rmax-R0), not R0" % qs[0])
                 if qs[-1] != 1 or not dag.equal(rad[-1], R):
                     probs.append("the last radius is R0 + %s*(Rmax-R0), not Rmax" % qs[-1])
+                # R-C18-4 (provenance): the end points are the caller's R0 and Rmax themselves (the very value that was passed
+                # in, copied), not an expression that equals them in exact arithmetic and may differ by an ulp after rounding
+                ck.instance("R-C18-4", "anisotropic " + key, nontrivial=False)
+                if rad[0] is R0 and rad[-1] is R:
+                    ck.ok("R-C18-4", "anisotropic " + key)
+                elif qs[0] == 0 and qs[-1] == 1:
+                    ck.violation("R-C18-4", "anisotropic:accumulated-endpoint", site, "%s: the %s radius equals %s only in exact arithmetic: it is computed as %s instead of being assigned from the end point (after rounding the grid need not end on the boundary)" % (
+                        key, "first" if rad[0] is not R0 else "last", "R0" if rad[0] is not R0 else "Rmax", dag.show(rad[0] if rad[0] is not R0 else rad[-1], 80)))
                 dec = [i for i in range(nr - 1) if not qs[i] < qs[i + 1]]
                 if dec:
                     probs.append("radii %d and %d are not increasing (q = %s, %s)" % (dec[0], dec[0] + 1, qs[dec[0]], qs[dec[0] + 1]))
@@ -429,7 +447,7 @@ def main(tier):
     ck.rule("R-C18-1", "tainted index offsets / advances / shift amounts carry a runtime lower and upper bound", floor=6)
     ck.rule("R-C18-2", "constructors validate after the last coordinate write and before derived data", floor=3)
     ck.rule("R-C18-3", "level count implies coarsening preconditions; <2 levels rejected", floor=200)
-    ck.rule("R-C18-4", "last radius/angle assigned from the endpoint", floor=4)
+    ck.rule("R-C18-4", "end-point provenance: in every interpreted generator instance (uniform, refined, anisotropic) the first and last radius are the values passed in (same value node), not expressions equal to them in exact arithmetic only", floor=8)
     prog = ir.load(units=UNITS, witness=False)
     ck.units += prog.units
     # ---------------- R-C18-1
@@ -550,41 +568,8 @@ def main(tier):
                     ck.violation("R-C18-3", "chooseNumberOfLevels:%s" % probs[0].split(" ")[0], ir.locstr(f_choose), "%s: %s" % (key, "; ".join(probs)))
                 else:
                     ck.ok("R-C18-3", key, sample={"shape": key, "levels": L} if n % 997 == 0 else None)
-    # ---------------- R-C18-4 endpoint pinning
-    def pinned(fn, arr_name, idx_pred, rhs_pred, what):
-        key = "%s:%s" % (fn["qn"].split("::")[-1], arr_name)
-        ck.instance("R-C18-4", key)
-        for s, guards in structq.stmts_with_guards(fn["body"]):
-            if s.get("k") != "Expr":
-                continue
-            e = s["e"]
-            tgt = rhs = None
-            if e.get("k") == "Assign" and e["op"] == "=":
-                tgt, rhs = e["a"], e["b"]
-            if tgt is None:
-                continue
-            idx = base = None
-            if tgt.get("k") == "OpCall" and tgt.get("op") == "[]":
-                base, idx = tgt["args"][0], tgt["args"][1]
-            elif tgt.get("k") == "Index":
-                base, idx = tgt["base"], tgt["idx"]
-            if base is None:
-                continue
-            bname = base.get("name") or base.get("field")
-            if bname == arr_name and idx_pred(ir.show(idx)) and rhs_pred(ir.show(rhs)):
-                # must not be inside a loop over the array
-                ck.ok("R-C18-4", key, sample={"function": fn["qn"], "statement": "%s[%s] = %s" % (arr_name, ir.show(idx), ir.show(rhs))})
-                return
-        ck.violation("R-C18-4", key, ir.locstr(fn), "%s: the last entry of %s is not assigned from %s (accumulated end points drift from the exact boundary)" % (fn["qn"], arr_name, what))
-
-    f = prog.fn("PolarGrid::constructRadialDivisions")
-    pinned(f, "r_temp", lambda i: i.replace(" ", "") == "(nr-1)", lambda r: r == "R", "the outer radius R")
-    f = prog.fn("PolarGrid::RadialAnisotropicDivision")
-    pinned(f, "r_temp2", lambda i: i.replace(" ", "") == "(nr-1)", lambda r: r == "R", "the outer radius R")
-    f = prog.fn("PolarGrid::constructAngularDivisions")
-    pinned(f, "angles_", lambda i: i == "ntheta_", lambda r: "3.14159" in r and r.replace(" ", "").startswith("(2*"), "2*pi")
-    f = prog.fn("PolarGrid::divideVector")
-    pinned(f, "result", lambda i: i.replace(" ", "") == "(resultSize-1)", lambda r: r == "vec.back()", "the last input value")
+    # ---------------- R-C18-4 endpoint provenance: decided inside R-C18-5 / R-C18-7 below on the interpreted generators (the end
+    # points must be the very values passed in; an expression that equals them only in exact arithmetic is reported)
     # ---------------- R-C18-5: algebraic facts of the uniform generator (exact rational functions of R0, Rmax)
     algebraic_grid(ck, prog, tier)
     # ---------------- R-C18-7: the anisotropic generator in exact arithmetic (ordered-set model)
